@@ -322,4 +322,28 @@ example : ((treePipeline (recursiveLouvain (fun _ => true)
       (fun nodes => nodes.map fun x => if x < 2 then 0 else 1) 6 3 (List.range 5))).toOption.map
       fun D => ValidDendro 5 D && heightsSorted D) = some true := by decide
 
+
+/-- **LouvainHierarchy** (non-bipartite input, `n ≥ 2` nodes): whatever label vectors Louvain returned on the
+    graph and on the successive aggregates (`first :: more`, one label per current cluster: `SeqOK`), when the loop
+    of `_get_hierarchy` ends within them, `dendrogram_` is a valid dendrogram over the `n` nodes with non-decreasing
+    heights — including the case of a single top cluster (F8, repaired). -/
+theorem louvainHierarchy_valid (n : Nat) (hn : 2 ≤ n) (first : List Nat) (more : List (List Nat)) (t : Tree)
+    (hfirst : first.length = n) (hok : SeqOK more (uniqueSorted first).length)
+    (h : getHierarchy n (first :: more) = some t) :
+    ∃ D, treePipeline t = .ok D ∧ ValidDendro n D = true ∧ heightsSorted D = true := by
+  obtain ⟨hwf, hperm⟩ := getHierarchy_wf n hn first more t hfirst hok h
+  cases t with
+  | leaf k =>
+    have := hperm.length_eq
+    simp [tleaves] at this
+    omega
+  | node ts => exact louvain_pipeline_valid ts n hwf hperm
+
+/-- non-vacuity: Louvain puts the 3 nodes of a triangle in one cluster (the witness of F8) -/
+example : (match getHierarchy 3 [[0, 0, 0], [0]] with
+    | some t => match treePipeline t with
+      | .ok D => ValidDendro 3 D && (D.map fun (r : Row Int) => (r.i, r.j, r.h, r.s)) == [(2, 1, 1, 2), (3, 0, 1, 3)]
+      | .error _ => false
+    | none => false) = true := by decide
+
 end SkNet.C07
